@@ -21,4 +21,12 @@ CLAIMS['C17'] = {
             'crypto answer. O17.3 decides list coherence for 1..3 examined signatures over a 10-value issue basis. Bounded model checking.',
     'note': 'Trusted: stubs of check_management/check_primitives/EdDSAPub.verify (arbitrary values), CrossHair, the translator (validated on all 2048 values against the real property each run). '
             'Revoked is treated as advisory, as the library does. One genuine defect was repaired (fix: 63ecc59).'}
+CLAIMS['C05'] = {
+    'technique': 'bounded symbolic execution of the real signature-packet parser and hashdata (CrossHair+z3) over symbolic subpacket octets',
+    'text': 'A received v4 signature packet is assembled from symbolic octets (type id, critical bit, length form 1/2/5, body octets, header octets), parsed by the real '
+            'Packet() dispatch and every registered subpacket handler, and the octets PGPSignature.hashdata feeds to the hash are compared with the received region; '
+            'one obligation per handler family, each with exhausted path tree (all paths unsat) within the per-family bounds listed in the evidence; plus order of several '
+            'subpackets, the four header octets, and a symbolic single-bit flip of the region. Bounded model checking.',
+    'note': 'Trusted: CrossHair, shims, the packet assembler in harness/c05.py. Bounds: bodies of a few symbolic octets (time octets from {00,7F,80,FF}; one fingerprint octet from 16 values), '
+            'well-formed fixed-size subpackets only, v4 only. Three genuine defects were repaired (fix: 7eafd51, e71c98b, 37a3e74).'}
 NOT_APPLICABLE = {p: NB for p in ['C%02d' % i for i in range(1, 21)] if p not in CLAIMS}
